@@ -648,12 +648,13 @@ static void do_proof(World &W, const ProofSpec &ps_in, const Fault &f, bool chun
 }
 
 // ---- opening a card with the full protocol (non-interactive shares over a string stream) ----
-static size_t open_card(World &W, const VTMF_Card &c, size_t r, int missing, bool &shares_ok)
+static size_t open_card(World &W, const VTMF_Card &c, size_t r, int missing, bool &shares_ok, int64_t retry = -1)
 {
 	Player &pr = W.P[r];
 	W.S.single_party = (int)r;
 	pr.tmcg->TMCG_SelfCardSecret(c, pr.vtmf.get());
 	shares_ok = true;
+	size_t nth = 0;
 	for (size_t j = 0; j < W.k; j++)
 	{
 		if (j == r || (int)j == missing) continue;
@@ -661,6 +662,25 @@ static size_t open_card(World &W, const VTMF_Card &c, size_t r, int missing, boo
 		W.S.single_party = (int)j;
 		W.P[j].tmcg->TMCG_ProveCardSecret(c, W.P[j].vtmf.get(), wire, wire);
 		W.S.single_party = (int)r;
+		if (retry >= 0 && (size_t)(retry & 7) % (W.k - 1) == nth)
+		{
+			// the share message of this player arrives damaged first (one line + 1) and is refused, then the
+			// player sends it again: a refused message must leave the opening untouched
+			std::vector<std::string> lines; { std::string l; std::istringstream is(wire.str()); while (std::getline(is, l)) lines.push_back(l); }
+			if (!lines.empty())
+			{
+				size_t li = (size_t)(retry >> 3) % lines.size(); std::string m;
+				if (mutate_int_line(lines[li], 0, m) && m != lines[li])
+				{
+					std::string txt; for (size_t q = 0; q < lines.size(); q++) txt += (q == li ? m : lines[q]) + "\n";
+					std::stringstream bad(txt);
+					bool acc = pr.tmcg->TMCG_VerifyCardSecret(c, pr.vtmf.get(), bad, bad);
+					W.res.cnt["fault.share_damaged_then_resent"]++;
+					if (acc) W.res.cnt["probe.damaged_share_accepted"]++; // judged by the transcript checks of C05, not here
+				}
+			}
+		}
+		nth++;
 		if (!pr.tmcg->TMCG_VerifyCardSecret(c, pr.vtmf.get(), wire, wire)) shares_ok = false;
 	}
 	return pr.tmcg->TMCG_TypeOfCard(c, pr.vtmf.get());
@@ -717,7 +737,7 @@ static Plan cards_generate(uint64_t seed, const Tier &tier)
 		if (c < 12) p.ops.push_back(Op("card", (int64_t)g.below(128)));
 		else if (c < 24) p.ops.push_back(Op("mask", (int64_t)g.below(k), (int64_t)g.below(64)));
 		else if (c < 30) p.ops.push_back(Op("vmask", (int64_t)g.below(k), (int64_t)g.below(128)));
-		else if (c < 40) p.ops.push_back(Op("open", (int64_t)g.below(k), (int64_t)g.below(64), g.chance(1, 3) ? (int64_t)g.below(k) : -1));
+		else if (c < 40) { Op o("open", (int64_t)g.below(k), (int64_t)g.below(64), g.chance(1, 3) ? (int64_t)g.below(k) : -1); o.a.push_back((faults && g.chance(1, 3)) ? (int64_t)g.below(1 << 10) : -1); p.ops.push_back(o); }
 		else if (c < 48) p.ops.push_back(Op("stack", (int64_t)g.range(1, 10), (int64_t)g.below(1 << 20)));
 		else if (c < 62) p.ops.push_back(Op("mix", (int64_t)g.below(k), (int64_t)g.below(16), g.chance(2, 5) ? 1 : 0, g.chance(1, 12) ? 1 : 0));
 		else if (c < 68) p.ops.push_back(Op("openstack", (int64_t)g.below(k), (int64_t)g.below(16)));
@@ -873,7 +893,7 @@ static RunResult cards_execute(const Plan &plan)
 			int missing = (int)op.arg(2);
 			if (missing >= 0) { missing = missing % (int)W.k; if ((size_t)missing == r) missing = (int)((r + 1) % W.k); }
 			bool ok = true;
-			size_t t = open_card(W, cr.c, r, missing, ok);
+			size_t t = open_card(W, cr.c, r, missing, ok, (op.a.size() > 3) ? op.arg(3) : -1);
 			W.res.cnt[missing >= 0 ? "fault.missing_share" : "probe.cards_opened"]++;
 			if (missing >= 0) W.any_fault = true;
 			if (!ok) W.violate("C03", "honest_proof_rejected_decrypt", "a player's honest decryption share was refused while opening a card");
